@@ -8,6 +8,8 @@ Sub-check "roundtrip": hand-written parameters for every kind / dimension / sour
                        instance name / with_mixing_matrix: save -> load -> same class, name, features, dimension, source_dimension,
                        observation models; parameters and hyperparameters equal as float32; estimate equal (1e-6) on generated
                        individuals; save of the reloaded model reproduces the file except the `leaspy_version` key.
+                       A third of the cases are *updated in place*: the object first receives another generated parameter set and
+                       then the final one through a second load_parameters; every oracle is applied to the final set.
 
 Known findings handled by the harness (DESIGN.md section 6):
   F7  - `save` writes the *instance* name under "name", `load` feeds it to `model_factory` as the model *kind*: a model whose name
@@ -47,12 +49,15 @@ RULE = (
     "source_dimension 0..dimension-1, noise gaussian-scalar/gaussian-diagonal/bernoulli) x instance name x feature names x generated "
     "cohort (vf.core.gen.cohort, 2-8 individuals) x n_iter 8-30 x seed x individuals to estimate; roundtrip: the same configuration "
     "space with hand-written float32 parameters in the DESIGN.md ranges, with_mixing_matrix in {True, False}, constructor given "
-    "features only or features+dimension. Non-trivial = source_dimension >= 1 and dimension >= 2 and instance name != model kind; "
+    "features only or features+dimension, and for 1/3 of the cases a first parameter set replaced by the final one through a second "
+    "load_parameters on the same object. Non-trivial = source_dimension >= 1 and dimension >= 2 and instance name != model kind; "
     "distinct by the whole case."
 )
 ASSUMPTIONS = [
     "Hand-written models are built the way BaseModel.load builds them: model_factory(kind, instance_name=..., **hyperparameters), "
-    "load_parameters(dict), _is_initialized = True; feature names are always given (a model without features cannot be reloaded).",
+    "load_parameters(dict), _is_initialized = True; feature names are always given (a model without features cannot be reloaded). "
+    "load_parameters is documented as 'instantiate or update': after a second call the object must be indistinguishable from one "
+    "that only ever received the final parameters (population variables at their prior modes included).",
     "Prior mode: every population latent variable of the shipped kinds has a Normal(<name>_mean, <name>_std) prior, whose mode is "
     "<name>_mean; equality with the saved parameter is exact (same float32 numbers).",
     "Mixing matrix oracle is a predicate, not a re-implementation: every row is orthogonal to G*v0 (metric-weighted velocity; "
@@ -72,7 +77,7 @@ ASSUMPTIONS = [
     "parameters are counted as excluded: the property speaks about completed fits.",
 ]
 REQUIRED_CLASSES = {
-    "nontrivial": 0.1, "fit": 200, "roundtrip": 1500, "roundtrip-completed": 0.9, "name!=kind": 0.3, "name:unicode": 50,
+    "nontrivial": 0.1, "fit": 200, "roundtrip": 1500, "roundtrip:updated-in-place": 250, "roundtrip-completed": 0.9, "name!=kind": 0.3, "name:unicode": 50,
     "name:other-kind": 50, "name:kind-in-other-case": 50, "sources>=1": 0.3,
     "kind:logistic": 100, "kind:linear": 100, "kind:shared_speed_logistic": 100, "kind:joint": 100, "kind:mixture_logistic": 100,
     "noise:gaussian-scalar": 200, "noise:gaussian-diagonal": 200, "noise:bernoulli": 30, "with_mixing_matrix=False": 200,
@@ -217,10 +222,15 @@ def _individuals(draw, sd, shared_speed=False):
 def roundtrip_case(draw, kinds=KINDS):
     cfg = draw(_cfg_strategy(kinds))
     kw = cfg["kwargs"]
-    return dict(cfg=cfg, name=draw(_name(cfg["kind"])), features=draw(_features(kw["dimension"])),
+    case = dict(cfg=cfg, name=draw(_name(cfg["kind"])), features=draw(_features(kw["dimension"])),
                 give_dimension=draw(st.booleans()), with_mixing_matrix=draw(st.sampled_from([True, True, False])),
                 parameters=draw(_parameters(cfg)),
                 individuals=draw(_individuals(kw["source_dimension"], cfg["kind"] == "shared_speed_logistic")))
+    if draw(st.sampled_from([False, False, True])):
+        # multi-step variant: the object first receives another parameter set, then `parameters` through a second
+        # load_parameters ("instantiate or update"); everything is judged against `parameters`, the set that gets saved
+        case["parameters_first"] = draw(_parameters(cfg))
+    return case
 
 
 @st.composite
@@ -387,6 +397,8 @@ def build_handwritten(case):
     if case.get("give_dimension"):
         hp["dimension"] = kw["dimension"]
     m = model_factory(kind, instance_name=case["name"], **hp)
+    if case.get("parameters_first") is not None:
+        m.load_parameters({k: v for k, v in case["parameters_first"].items()})
     m.load_parameters({k: v for k, v in case["parameters"].items()})
     m._is_initialized = True
     return m
@@ -580,8 +592,8 @@ def roundtrip(col, sub, inp, case, model, *, from_fit):
     mixing = (P["mixing_matrix"] if has_mm else model.state["mixing_matrix"].tolist()) if sd >= 1 else None
 
     # ---- the saved numbers describe the object (derived quantities, trajectories) ------------
-    if from_fit:
-        check_fitted(col, sub, inp, case, model, Pn)
+    # after a fit and after any (first or repeated) load_parameters: population variables sit at the mode of their prior
+    check_fitted(col, sub, inp, case, model, Pn)
     check_derived(col, sub, inp, case, model, Pn)
     est1 = check_trajectories(col, sub, inp, case, model, Pn, mixing, "saved-object")
 
@@ -738,10 +750,12 @@ def body_roundtrip(col: Collector, case):
         return
     facts = roundtrip(col, "roundtrip", case, case, model, from_fit=False)
     cl, nt = _classes(case, facts)
-    col.case(classes=["roundtrip"] + cl + (["give-dimension"] if case.get("give_dimension") else []),
+    updated = case.get("parameters_first") is not None
+    col.case(classes=["roundtrip"] + cl + (["give-dimension"] if case.get("give_dimension") else [])
+             + (["roundtrip:updated-in-place"] if updated else []),
              nontrivial=jhash(case) if nt else None,
              sample=dict(sub_check="roundtrip", cfg=case["cfg"], name=case["name"], features=case["features"],
-                         with_mixing_matrix=case["with_mixing_matrix"], parameters=case["parameters"]))
+                         with_mixing_matrix=case["with_mixing_matrix"], parameters=case["parameters"], updated_in_place=updated))
 
 
 def fit_model(col: Collector, case):
